@@ -56,7 +56,8 @@ Print Assumptions C18_plan_exists.
    mode and every total sub-list sort: the plan is not empty, its positions strictly decrease, consecutive entries name different
    modes (except the final entry at position 0), an ASCII run ends where the greedy ASCII encodation of the characters from its
    start has an item boundary (`aligned`: the encoder's digit pairs never straddle a planned switch), a Base256 run has at most
-   1556 bytes and at most 1555 if it is left before the end of the data; and the encoder, which starts in ASCII, can reach the
+   1556 bytes and at most 1555 if it is left before the end of the data; an X12 run consists of native characters in whole triples
+   (the last run may leave up to two characters to ASCII); and the encoder, which starts in ASCII, can reach the
    first planned position *)
 Theorem C18_plan_aligned : forall sl data sorter written mode modes res st,
   (forall k l, exists l', sorter k l = Ok l' /\ incl l' l) -> data <> [] ->
